@@ -324,6 +324,39 @@ def bootstrap_runs(chk: Check, n, kinds):
                     break
 
 
+def large_sample(chk: Check):
+    """a LARGE sample (n_resamples x sample size beyond 2**25 cells): the interval is still what scipy.stats.bootstrap
+    gives for the same arrays, settings (batch=None) and seed"""
+    import numpy as np
+    import pyarrow as pa
+    import scipy.stats
+    import tea_tasting as tt
+    nprng = np.random.default_rng(chk.seed + 151)
+    n, nres, seed = 34000, 999, 12345
+    x = nprng.lognormal(1, 0.5, 2 * n)
+    data = pa.table({"variant": [0] * n + [1] * n, "x": x})
+    chk.case(("bootstrap-large", n, nres))
+    chk.branch("bootstrap:large-sample")
+    inp = dict(rows_per_variant=n, n_resamples=nres, seed=seed, statistic="mean", method="percentile")
+    try:
+        r = tt.Bootstrap("x", np.mean, n_resamples=nres, method="percentile", random_state=seed).analyze(data, 0, 1, "variant")
+    except Exception as ex:  # noqa: BLE001
+        chk.fail("Bootstrap analysis raised on a large sample", dict(input=inp, error=repr(ex)))
+        return
+
+    def stacked(c, t, axis=-1):
+        cs, ts = np.mean(c, axis=axis), np.mean(t, axis=axis)
+        return np.stack((ts - cs, ts / cs - 1), axis=0)
+    o = scipy.stats.bootstrap((x[:n], x[n:]), stacked, n_resamples=nres, batch=None, axis=0, confidence_level=0.95,
+                              alternative="two-sided", method="percentile", random_state=seed).confidence_interval
+    got = [float(r.effect_size_ci_lower), float(r.effect_size_ci_upper), float(r.rel_effect_size_ci_lower),
+           float(r.rel_effect_size_ci_upper)]
+    want = [float(o.low[0]), float(o.high[0]), float(o.low[1]), float(o.high[1])]
+    if got != want:
+        chk.fail("BootstrapResult differs from scipy.stats.bootstrap on the same arrays and settings (large sample)",
+                 dict(input=inp, got=got, expected=want))
+
+
 def main():
     warnings.filterwarnings("ignore")
     chk = Check(PROP)
@@ -347,6 +380,7 @@ def main():
     partition(chk, 25 if q else 250, kinds)
     selection(chk, 60 if q else 600)
     bootstrap_runs(chk, 8 if q else 60, ("pandas", "polars-lazy", "pyarrow", "pyarrow-chunked", "ibis-sqlite"))
+    large_sample(chk)
     chk.cov["rule"] = ("partition: 1..4 variants (int/str/bool ids), <= 34 rows, 1..3 of 4 columns (int and float), 6 input "
                        "kinds; selection: fetched superset in any order, by name, vector vs stack, missing column; bootstrap: "
                        "mean / 2-column ratio of means / median of a 1-tuple / Quantile x alternative x level x method x "
